@@ -232,10 +232,10 @@ func (m *ManySpec) key(i int) []byte {
 	return k
 }
 
-func load(c Case) (*fsmx.Replica, *model.Map, *vt.Failure) {
+func load(c Case) (*fsmx.Replica, *model.Map, func(cmd *regattapb.Command) *vt.Failure, *vt.Failure) {
 	r := fsmx.Create(fsmx.NewFS(), fsm.SnapshotRecoveryType(c.RecoveryType), 1)
 	if _, err := r.Open(); err != nil {
-		return nil, nil, vt.Failf(prop+"/open-error", 0, "%v", err)
+		return nil, nil, nil, vt.Failf(prop+"/open-error", 0, "%v", err)
 	}
 	m := model.New()
 	idx := uint64(1)
@@ -257,29 +257,29 @@ func load(c Case) (*fsmx.Replica, *model.Map, *vt.Failure) {
 			}
 			if f := apply(cmd); f != nil {
 				_ = r.Close()
-				return nil, nil, f
+				return nil, nil, nil, f
 			}
 		}
 	}
 	for _, kv := range c.Content {
 		if f := apply(&regattapb.Command{Table: []byte("t"), Type: regattapb.Command_PUT, Kv: &regattapb.KeyValue{Key: kv.K, Value: kv.V.Bytes()}}); f != nil {
 			_ = r.Close()
-			return nil, nil, f
+			return nil, nil, nil, f
 		}
 	}
 	if c.Flush {
 		if err := r.SM.Sync(); err != nil {
 			_ = r.Close()
-			return nil, nil, vt.Failf(prop+"/sync-error", 0, "%v", err)
+			return nil, nil, nil, vt.Failf(prop+"/sync-error", 0, "%v", err)
 		}
 	}
 	for _, d := range c.Deletes {
 		if f := apply(&regattapb.Command{Table: []byte("t"), Type: regattapb.Command_DELETE, Kv: &regattapb.KeyValue{Key: d}}); f != nil {
 			_ = r.Close()
-			return nil, nil, f
+			return nil, nil, nil, f
 		}
 	}
-	return r, m, nil
+	return r, m, apply, nil
 }
 
 // checkSorted asserts strictly ascending keys (hence no duplicates).
@@ -293,7 +293,7 @@ func checkSorted(kvs []*regattapb.KeyValue) error {
 }
 
 func run(c Case, o *vt.Obs) *vt.Failure {
-	r, m, f := load(c)
+	r, m, apply, f := load(c)
 	if f != nil {
 		return f
 	}
@@ -381,6 +381,67 @@ func run(c Case, o *vt.Obs) *vt.Failure {
 			}
 			if cerr := model.CheckRangeResponse(want, lm, false); cerr != nil {
 				return vt.Failf(prop+"/stream-consumed-late-"+classify(cerr), i, "iterate %s consumed after other requests had been served: %v", tlog.FmtRange(req), cerr)
+			}
+		}
+		// path 4: writes applied WHILE the stream is being consumed (after its first message): the stream has to stay one point-in-time
+		// view, and the first message was produced before the writes, so that view is the state before them.
+		if !want.Single && !want.CountOnly && len(want.Pairs) >= 2 {
+			v, err := r.SM.Lookup(fsm.IteratorRequest{RangeOp: req})
+			if err != nil {
+				return vt.Failf(prop+"/read-error", i, "iterate %s: %v", tlog.FmtRange(req), err)
+			}
+			before := m.Read(req)
+			var mid []*regattapb.ResponseOp_Range
+			var werr *vt.Failure
+			v.(iter.Seq[*regattapb.ResponseOp_Range])(func(x *regattapb.ResponseOp_Range) bool {
+				mid = append(mid, x)
+				if len(mid) == 1 {
+					lastKey := want.Pairs[len(want.Pairs)-1].K
+					firstKey := want.Pairs[0].K
+					seen := firstKey
+					if len(x.Kvs) > 0 {
+						seen = x.Kvs[len(x.Kvs)-1].Key
+					}
+					writes := []*regattapb.Command{
+						{Table: []byte("t"), Type: regattapb.Command_DELETE, Kv: &regattapb.KeyValue{Key: lastKey}},
+						{Table: []byte("t"), Type: regattapb.Command_PUT, Kv: &regattapb.KeyValue{Key: append(append([]byte(nil), seen...), 0x00), Value: []byte("added-mid-stream")}},
+						{Table: []byte("t"), Type: regattapb.Command_PUT, Kv: &regattapb.KeyValue{Key: firstKey, Value: []byte("changed-mid-stream")}},
+					}
+					for _, w := range writes {
+						if len(w.Kv.Key) > 1024 {
+							continue
+						}
+						if f := apply(w); f != nil {
+							werr = f
+							return false
+						}
+					}
+				}
+				return true
+			})
+			if werr != nil {
+				return werr
+			}
+			mm, merr := tlog.MergeChunks(mid)
+			if merr != nil {
+				return vt.Failf(prop+"/stream-more-flags", i, "iterate (writes mid-stream) %s: %v", tlog.FmtRange(req), merr)
+			}
+			if cerr := model.CheckRangeResponse(before, mm, false); cerr != nil {
+				return vt.Failf(prop+"/stream-not-point-in-time", i, "iterate %s (%d messages) with writes applied after the first message: not the view the stream started with: %v", tlog.FmtRange(req), len(mid), cerr)
+			}
+			if len(mid) > 1 {
+				o.Label("writes-mid-stream-multi-message")
+			}
+			want = m.Read(req)
+			merged2, err := r.Iterate(req)
+			if err != nil {
+				return vt.Failf(prop+"/read-error", i, "iterate %s: %v", tlog.FmtRange(req), err)
+			}
+			if merged, merr = tlog.MergeChunks(merged2); merr != nil {
+				return vt.Failf(prop+"/stream-more-flags", i, "iterate %s: %v", tlog.FmtRange(req), merr)
+			}
+			if cerr := model.CheckRangeResponse(want, merged, false); cerr != nil {
+				return vt.Failf(prop+"/stream-"+classify(cerr), i, "iterate %s after mid-stream writes: %v", tlog.FmtRange(req), cerr)
 			}
 		}
 		// variants agree with the full read: keys-only / count-only over the same bounds and limit
